@@ -150,6 +150,7 @@ type Exec struct {
 	propsOver  []string
 	topEnv     *Env
 	sweep      bool
+	pending    *pendingStore
 }
 
 func (x *Exec) fresh(base string) string {
@@ -312,7 +313,14 @@ func (x *Exec) val(fr *frame, v ssa.Value, st *State) sval {
 		return sval{t: x.constTerm(c)}
 	case *ssa.Global:
 		// pointer to a global cell: handled at load/store by type switch
-		return sval{t: "0", loc: &Loc{Kind: "global", Comp: x.so.globalComp(c.Pkg.Pkg.Path()+"."+c.Name(), c.Type().(*types.Pointer).Elem()), ElemT: c.Type().(*types.Pointer).Elem()}}
+		comp := x.so.globalComp(c.Pkg.Pkg.Path()+"."+c.Name(), c.Type().(*types.Pointer).Elem())
+		if x.eng.nonNilGlobals[c] {
+			if x.eng.nonNilComps == nil {
+				x.eng.nonNilComps = map[string]bool{}
+			}
+			x.eng.nonNilComps[comp] = true
+		}
+		return sval{t: "0", loc: &Loc{Kind: "global", Comp: comp, ElemT: c.Type().(*types.Pointer).Elem()}}
 	case *ssa.Function:
 		return sval{t: strconv.Itoa(1000000 + x.eng.typeID("fn:"+c.String())), clo: &closure{fn: c}}
 	case *ssa.Builtin:
@@ -395,6 +403,10 @@ func (x *Exec) load(fr *frame, addr sval, ptrT types.Type, st *State, reach stri
 			term = "(select (select " + st.get(l.Comp) + " " + l.Base + ") " + l.Idx + ")"
 		case "global":
 			term = st.get(l.Comp)
+			if x.eng.nonNilComps[l.Comp] {
+				x.assume("", "(not (= "+term+" 0))")
+				x.note("package-level error sentinels assigned once in the package initialiser are non-nil")
+			}
 		}
 	} else {
 		x.oblige("safety", "nil:load:"+typeKey(elemT), reach, "(not (= "+addr.t+" 0))", "nil pointer dereference (load)", pos)
@@ -446,7 +458,24 @@ func (x *Exec) store(fr *frame, addr sval, ptrT types.Type, v sval, st *State, r
 		case "field":
 			cur := st.get(l.Comp)
 			rec := "(select " + cur + " " + l.Obj + ")"
+			sf, hasSF := x.eng.storeFacts[l.Comp]
+			if hasSF {
+				if x.pending != nil && (x.pending.obj != l.Obj || x.pending.comp != l.Comp) {
+					x.flushStores(st, reach)
+				}
+				if x.pending == nil {
+					x.pending = &pendingStore{comp: l.Comp, obj: l.Obj, before: x.predArgs(sf.Args, st), sf: sf}
+				}
+			}
 			upd(l.Comp, "(store "+cur+" "+l.Obj+" "+x.fieldSet(rec, l.Path, v.t)+")")
+			if len(l.Path) == 1 {
+				if g, ok := x.eng.onStore[l.Comp+"."+l.Path[0].SI.Fields[l.Path[0].Idx].Acc]; ok {
+					gc := "G_" + g
+					gcur := st.get(gc)
+					st.set(gc, x.define(gc, x.so.comps[gc], "(ite (= "+v.t+" 0) "+gcur+" (store "+gcur+" "+v.t+" true))"))
+				}
+			}
+
 		case "elem":
 			cur := st.get(l.Comp)
 			upd(l.Comp, "(store "+cur+" "+l.Base+" (store (select "+cur+" "+l.Base+") "+l.Idx+" "+v.t+"))")
@@ -741,6 +770,11 @@ func (x *Exec) execBody(fr *frame, st0 *State, reach0 string) ([]sval, *State, s
 		alive := true
 		for ; k < len(instrs) && alive; k++ {
 			ins := instrs[k]
+			switch ins.(type) {
+			case *ssa.Store, *ssa.FieldAddr, *ssa.DebugRef, *ssa.IndexAddr, *ssa.Alloc:
+			default:
+				x.flushStores(st, reach)
+			}
 			switch t := ins.(type) {
 			case *ssa.If:
 				c := x.val(fr, t.Cond, st).t
@@ -1000,6 +1034,51 @@ func (x *Exec) loopFrame(ct *Contract, ws *WriteSet, st0, cur *State, reach stri
 	}
 }
 
+type pendingStore struct {
+	comp, obj string
+	before    []string
+	sf        predApp
+}
+
+// flushStores emits the store fact for the run of stores into one object
+// that has just ended.
+func (x *Exec) flushStores(st *State, reach string) {
+	if x.pending == nil {
+		return
+	}
+	p := x.pending
+	x.pending = nil
+	after := x.regionRecord(st, p.sf.Args[0])
+	x.assume(reach, "("+p.sf.Pred+" "+strings.Join(p.before, " ")+" "+after+" "+p.obj+")")
+	x.assumeStateInvs(st, "")
+}
+
+// predArgs renders the state-dependent arguments of a predApp.
+func (x *Exec) predArgs(args []string, st *State) []string {
+	var out []string
+	for _, a := range args {
+		switch {
+		case a == "na":
+			out = append(out, st.na)
+		case strings.HasPrefix(a, "ghost:"):
+			out = append(out, st.get("G_"+strings.TrimPrefix(a, "ghost:")))
+		case a == "BM":
+			out = append(out, st.get("BM"))
+		default:
+			out = append(out, x.regionRecord(st, a))
+		}
+	}
+	return out
+}
+
+// assumeStateInvs: invariants of the instrumented semantics (maintained by
+// construction by the engine's ghost updates) hold in every state.
+func (x *Exec) assumeStateInvs(st *State, guard string) {
+	for _, si := range x.eng.stateInvs {
+		x.assume(guard, "("+si.Pred+" "+strings.Join(x.predArgs(si.Args, st), " ")+")")
+	}
+}
+
 // havocForWrites gives fresh symbols to the components in ws (or all).
 func (x *Exec) havocForWrites(st *State, ws *WriteSet, why string) *State {
 	n := st.clone()
@@ -1024,5 +1103,6 @@ func (x *Exec) havocForWrites(st *State, ws *WriteSet, why string) *State {
 	na := x.freshConst("na", "Int")
 	x.assume("", "(>= "+na+" "+st.na+")")
 	n.na = na
+	x.assumeStateInvs(n, "")
 	return n
 }
